@@ -89,6 +89,12 @@ func validateSupportedChains(i interface{}) error {
 			return fmt.Errorf("empty chain id")
 		}
 
+		// NFT ids are rendered as chainId/contract/token and oracle vote entries as nftId:owner: a chain id
+		// containing a separator could not be parsed back, by the chain or by a feeder
+		if strings.ContainsAny(chain.ChainId, "/:") {
+			return fmt.Errorf("chain id %s must not contain '/' or ':'", chain.ChainId)
+		}
+
 		if strings.TrimSpace(chain.ChainName) == "" {
 			return fmt.Errorf("empty chain name")
 		}
